@@ -17,7 +17,7 @@ def run(tier, seed, replay=None):
     n = 600 if quick else 6000
     batches = [dict(name="tlc-enumerated", world=seed, gen=(tier, False), args=["-seed", seed, "-runs", 6 if quick else 12])]
     for k in range(2 if quick else 4):
-        batches.append(dict(name="random-%d" % k, world=seed * 10 + k, args=["-n", n, "-seed", seed * 10 + k, "-runs", 4, "-depth", 3]))
+        batches.append(dict(name="random-%d" % k, world=seed * 10 + k, sched=True, args=["-n", n, "-seed", seed * 10 + k, "-runs", 4, "-depth", 3]))
     # every schedule: a sequential scheduler driven by a choice sequence, all choice sequences enumerated
     # depth-first (stateless exploration of the real executor), capped per query
     batches.append(dict(name="all-schedules", world=seed + 3, args=["-n", 120 if quick else 1200, "-seed", seed * 10 + 7, "-runs", 1, "-depth", 3,
@@ -26,6 +26,7 @@ def run(tier, seed, replay=None):
                                                                                           "-allsched", 200 if quick else 2000]))
     v = vlib.Verdict(PROP)
     st = ex.run_batches(PROP, v, batches)
+    ex.sched_model(tier, st)
     rc = v.finish()
     ex.evidence(PROP, tier, seed, st, v,
                 "every query of the TLC-enumerated bounded grammar + seeded random query ASTs (depth <= 3) over seeded data "
@@ -33,7 +34,11 @@ def run(tier, seed, replay=None):
                 "configurations; two further batches enumerate, per query and one mode assignment, EVERY order in which a "
                 "sequential scheduler can run the work units (depth-first over choice sequences, capped per query; the evidence "
                 "says how many queries were enumerated completely); distinct = different (data graph, query text); all generated "
-                "queries are non-trivial (at least one resolver runs)",
+                "queries are non-trivial (at least one resolver runs). Scheduling: ExecSched.tla is model-checked over every tree "
+                "of 4 (quick) / 5 (thorough) work units x every placement of failing units x every interleaving of the stock "
+                "goroutine-per-unit scheduler (ReturnComplete, Outcome, ReturnedQuiescent, OnceEach, WgExact, ErrStable, "
+                "Terminates; two guards with a design switch off must violate), and every run of the random batches is traced "
+                "(start/finish of every unit, errorRecorder hooks, return, outcome) and validated against it (sched_* counts)",
                 ["the zoo (two keyed object types, one union, lists with nil entries, nil objects) stands for 'every schema'",
                  "fragments under object parents carry the parent's type (thunder does not evaluate type conditions there)",
                  "schedulers: stock goroutine-per-unit, FIFO, LIFO, random order, concurrent with random delays, and the exhaustive "
